@@ -424,12 +424,15 @@ func TestVerifReplay(t *testing.T) {
 		}
 	}()
 	defer VerifCleanup()
-	%s()
+	for i := 0; i < %d && len(VerifFailed) == 0; i++ {
+		VerifReset()
+		%s()
+	}
 	if len(VerifFailed) > 0 {
 		t.Fail()
 	}
 }
-`, pkgName, e.Func)
+`, pkgName, repeatCount(e), e.Func)
 	testLocal := filepath.Join(dir, "zz_verif_replay_test.go")
 	os.WriteFile(testLocal, []byte(test), 0o644)
 	repl[filepath.Join(RepoRoot, pkgDir, "zz_verif_replay_test.go")] = testLocal
@@ -461,6 +464,14 @@ func TestVerifReplay(t *testing.T) {
 		return true, "native replay panics outside verifTry: " + firstLineWith(txt, "VERIF-UNCAUGHT-PANIC")
 	}
 	return false, "native replay did not reproduce " + v.Label
+}
+
+// repeatCount: entries whose violation depends on Go's randomised map order are replayed many times.
+func repeatCount(e Entry) int {
+	if e.Replay == "repeat" {
+		return 400
+	}
+	return 1
 }
 
 func firstLineWith(txt, sub string) string {
